@@ -127,7 +127,7 @@ theorem parsePacket_encIpfix (c : Config) (names : List (Nat × String)) (ht : c
   simp only [encIpfix, List.append_assoc, parsePacket]
   rw [beU2_toBE (by omega)]
   simp only [h10, ↓reduceIte, hd, parseVersioned, Nat.reduceEqDiff, parseIpfix, g1, g2, Nat.add_sub_cancel,
-    takeN_append, hp, liftRes]
+    takeN_append_a6, hp, liftRes]
 
 /-! ### streams of messages -/
 
